@@ -6,7 +6,7 @@ CFG = dict(
     trusted=[
         'the id <-> name table, the statement projection (Cond/Loop/LoopN/Foreach/Group -> Block, Action/Ret -> Other) and the PlantUML arrow parser are in the harness',
         'the IntsShape translator decides what counts as a guard / AddCall / FinalApps append / WalkPassthrough statement of a handler, and compares expressions in go/types.ExprString spelling',
-        'protobuf getters, syslutil.StrSet / HasPattern / GetAppName and sort.Strings are taken to do what their names say (nil-safety of the getters is modelled: a call to an undefined app panics)',
+        'protobuf getters, syslutil.StrSet / HasPattern / GetAppName and sort.Strings are taken to do what their names say (nil-safety of the getters is modelled: an undefined app or endpoint is not human / not hidden, the call is recorded)',
         'the EPA (endpoint analysis) view, package boxes of the clustered view, mixin arrows and the "system" view are judged by the Go oracle only (EPA) or not at all; they are not in the Coq model',
     ],
     assumptions=[
@@ -16,6 +16,6 @@ CFG = dict(
 )
 TEXT = dict(
     level='Theorems in Coq over a transliteration of MakeBuilderfromStmt (seed / callers / indirect passes, ProcessCalls over every statement kind, the recursive pass-through walk, the de-duplicated dependency list) and of the arrow loop of DrawIntsView, for all modules, listings, exclude and pass-through sets: (1) termination - the current walk never exceeds a recursion depth of 1 + the number of call targets in the module, cycles included, whereas the walk as written before fix C14-1 exhausts any stack on a pass-through 2-cycle (proved for every fuel), and the guard changes no outcome where the old walk terminated (same DepsOut, same FinalApps as lists, same panic); (2) soundness - every dependency and every drawn arrow is backed by a call statement of the source app to the target app at some nesting depth and touches no excluded app (false before fix C14-2 for an app both listed and excluded: refutation proved); (3) completeness - every call of a listed, defined, non-human, non-excluded app to a non-excluded, non-human app and non-hidden endpoint is in the list and, if the target differs, drawn as a direct arrow; no dependency and no ordered app pair appears twice. The handlers of the model are proved equal to the interpretation of the statement lists that the translator re-reads from ints_builder.go on every run (guards in source order, seed filter, pass-through guard, ProcessCalls arms, de-duplication key). Tied to the code by running the real MakeBuilderfromStmt and GenerateIntegrations (plain, clustered, EPA) on ~900 (quick) / ~18 000 (thorough) random models and comparing DepsOut, FinalApps and the parsed arrows of the plain and clustered diagrams with the model inside Coq; a Go oracle judges termination (child process), soundness and completeness of list and arrows directly on the statement trees, for all three views.',
-    note='Trusted: Coq kernel + vm_compute, the IntsShape translator, the harness (name table, arrow parser). The EPA view is judged by the Go oracle only; package boxes, mixin arrows, the "system" view, labels and colours are outside the model. A call to an app that is not defined makes the real builder panic (nil dereference): modelled as Panic, counted, and left to C20. Completeness is proved for listed apps (the property\'s clause); callers of seeds and calls among the final apps are in the model and compared, not separately specified. Stack exhaustion is modelled as fuel.',
+    note='Trusted: Coq kernel + vm_compute, the IntsShape translator, the harness (name table, arrow parser). The EPA view is judged by the Go oracle only; package boxes, mixin arrows, the "system" view, labels and colours are outside the model. Calls to undefined apps / endpoints go through nil-safe getters and are recorded like any other; the model builder has no Panic outcome left (C14_never_panics) and the oracle reports any panic of the real builder or of a view. Completeness is proved for listed apps (the property\'s clause); callers of seeds and calls among the final apps are in the model and compared, not separately specified. Stack exhaustion is modelled as fuel.',
     technique='Coq proof over builder + renderer model, regenerated handler statement lists, differential runs on random call graphs with pass-through cycles',
 )
